@@ -209,6 +209,7 @@ def _splice(caller, b, callee, args, dest, cont, line, ret_wrap=None):
 
 
 _VARIANT = {'None': 0, 'Some': 1, 'Ok': 0, 'Err': 1}
+_CF = {'Ok': 0, 'Some': 0, 'Err': 1, 'None': 1}     # ControlFlow::Continue = 0, Break = 1
 
 
 def _thread_returns(caller, callee, loff, boff, dest, cont, line):
@@ -219,7 +220,22 @@ def _thread_returns(caller, callee, loff, boff, dest, cont, line):
     if dest[1]:
         return
     C = caller['bbs'][cont]
-    if C['t']['k'] != 'switch' or C['t']['d'][0] not in ('c', 'm') or C['t']['d'][1][1]:
+    # continuation `?`: dest goes through Try::branch and the ControlFlow discriminant is switched on
+    via_try = None
+    if C['t']['k'] == 'call' and re.search(r'Try>?::branch$', (C['t']['f'].get('inst') or C['t']['f'].get('def') or '')) and not C['s'] and C['t'].get('t') is not None:
+        a0 = C['t']['a'][0] if C['t']['a'] else None
+        if a0 and a0[0] in ('c', 'm') and a0[1] == [dest[0], []] or (a0 and a0[0] in ('c', 'm') and _copy_of(caller, a0[1][0], dest[0])):
+            S = caller['bbs'][C['t']['t']]
+            br = C['t']['d']
+            if S['t']['k'] == 'switch' and S['t']['d'][0] in ('c', 'm') and not S['t']['d'][1][1] and not br[1]:
+                xl = S['t']['d'][1][0]
+                if any(st[0] == 'A' and st[1] == [xl, []] and st[2][0] == 'discr' and st[2][1] == [br[0], []] for st in S['s']) \
+                        and all(st[0] == 'A' and st[2][0] in ('use', 'ref', 'discr', 'cast') for st in S['s']):
+                    via_try = (C, S)
+    if via_try is None and (C['t']['k'] != 'switch' or C['t']['d'][0] not in ('c', 'm') or C['t']['d'][1][1]):
+        return
+    if via_try is not None:
+        _thread_returns_try(caller, callee, loff, boff, dest, via_try, line)
         return
     xl = C['t']['d'][1][0]
     ok_shape = False
@@ -284,6 +300,76 @@ def _thread_returns(caller, callee, loff, boff, dest, cont, line):
                 pt['t'] = ni
             else:
                 pt['t'] = ni
+
+
+def _copy_of(rec, l, src):
+    """l is assigned exactly once, from a plain move/copy of src"""
+    defs = [st for bb in rec['bbs'] for st in bb['s'] if st[0] == 'A' and st[1] == [l, []]]
+    return len(defs) == 1 and defs[0][2][0] == 'use' and defs[0][2][1][0] in ('c', 'm') and defs[0][2][1][1] == [src, []]
+
+
+def _definers(caller, callee, loff, boff):
+    """-> list of (P, variant) for blocks of the spliced body that define the return value with a known variant and
+    reach a return through statement-free gotos; plus the chain sets per return"""
+    ret0 = loff
+    region = range(boff, boff + len(callee['bbs']))
+    rets = [boff + i for i, cb in enumerate(callee['bbs']) if cb['t']['k'] == 'ret']
+    out = []
+    for R in rets:
+        if len(caller['bbs'][R]['s']) != 1:
+            continue
+        chain = {R}
+        grew = True
+        while grew:
+            grew = False
+            for X in region:
+                xb = caller['bbs'][X]
+                if X not in chain and not xb['c'] and not xb['s'] and xb['t']['k'] == 'goto' and xb['t']['t'] in chain:
+                    chain.add(X)
+                    grew = True
+        for P in region:
+            pb = caller['bbs'][P]
+            pt = pb['t']
+            if pb['c'] or P in chain:
+                continue
+            goes = (pt['k'] == 'goto' and pt['t'] in chain) or (pt['k'] == 'call' and pt.get('t') in chain)
+            if not goes:
+                continue
+            var = None
+            if pt['k'] == 'call' and pt['d'] == [ret0, []]:
+                if 'from_residual' in (pt['f'].get('def') or ''):
+                    ty = caller['locals'][ret0]
+                    var = 'None' if ty.startswith('core::option::Option<') else 'Err' if ty.startswith('core::result::Result<') else None
+            elif pt['k'] == 'goto':
+                for st in reversed(pb['s']):
+                    if st[0] == 'A' and st[1] == [ret0, []]:
+                        if st[2][0] == 'agg':
+                            m = re.search(r'core::(option::Option|result::Result)::(None|Some|Ok|Err)$', str(st[2][1]))
+                            if m:
+                                var = m.group(2)
+                        break
+            if var is not None:
+                out.append((P, var))
+    return out
+
+
+def _thread_returns_try(caller, callee, loff, boff, dest, via_try, line):
+    C, S = via_try
+    explicit = {int(v): tb for v, tb in S['t']['v']}
+    for P, var in _definers(caller, callee, loff, boff):
+        tgt = explicit.get(_CF[var], S['t'].get('o'))
+        if tgt is None:
+            continue
+        n2 = {'c': 0, 's': copy.deepcopy(S['s']), 't': {'k': 'goto', 't': tgt}}
+        caller['bbs'].append(n2)
+        i2 = len(caller['bbs']) - 1
+        ct = copy.deepcopy(C['t'])
+        ct['t'] = i2
+        ct['u'] = None
+        n1 = {'c': 0, 's': [['A', copy.deepcopy(dest), ['use', ['m', [loff, []]]], line]], 't': ct}
+        caller['bbs'].append(n1)
+        i1 = len(caller['bbs']) - 1
+        caller['bbs'][P]['t']['t'] = i1
 
 
 def _reaches_self(fx, fid, limit=400):
